@@ -77,6 +77,51 @@ def _atom(ctx, e: ast.AST):
     return None
 
 
+def _inline_predicates(ctx, stmts: list) -> list:
+    """calls of module-level helper predicates of dumpparser (straight-line body: assignments to fresh locals, then one
+    return) are replaced by the returned expression, so that a filter moved into `is_wanted(title)` is judged by what it tests"""
+    import copy
+
+    m = ctx.index.mod("dumpparser")
+
+    def body_expr(f):
+        stmts_ = [x for x in f.body if not (isinstance(x, ast.Expr) and isinstance(x.value, ast.Constant))]
+        if not stmts_ or not isinstance(stmts_[-1], ast.Return) or stmts_[-1].value is None:
+            return None
+        env = {}
+        for x in stmts_[:-1]:
+            if isinstance(x, ast.Assign) and len(x.targets) == 1 and isinstance(x.targets[0], ast.Name):
+                env[x.targets[0].id] = _subst(x.value, env)
+            else:
+                return None
+        return _subst(stmts_[-1].value, env)
+
+    def _subst(e, env):
+        class T(ast.NodeTransformer):
+            def visit_Name(self, n):
+                if isinstance(n.ctx, ast.Load) and n.id in env:
+                    return copy.deepcopy(env[n.id])
+                return n
+        return T().visit(copy.deepcopy(e))
+
+    class R(ast.NodeTransformer):
+        def visit_Call(self, n):
+            self.generic_visit(n)
+            if isinstance(n.func, ast.Name) and n.func.id in m.funcs and not n.keywords:
+                f = m.funcs[n.func.id]
+                params = [a.arg for a in f.args.args]
+                if len(params) == len(n.args):
+                    e = body_expr(f)
+                    if e is not None:
+                        return ast.copy_location(_subst(e, dict(zip(params, n.args))), n)
+            return n
+
+    out = [R().visit(copy.deepcopy(st)) for st in stmts]
+    for st in out:
+        ast.fix_missing_locations(st)
+    return out
+
+
 def rule_r1(ctx) -> RuleResult:
     rr = RuleResult("C12.R1", "stored <=> namespace selected & not /documentation & not /testcases & model in {wikitext,Scribunto,json}",
                     min_instances=24)
@@ -84,7 +129,7 @@ def rule_r1(ctx) -> RuleResult:
     loops = [n for n in walk_no_nested(fn) if isinstance(n, ast.For) and "iterparse" in unparse(n.iter)]
     if len(loops) != 1:
         raise AnalysisError("parse_dump_xml: page loop not found")
-    body = loops[0].body
+    body = _inline_predicates(ctx, loops[0].body)
     sk = Skeleton(lambda e: _atom(ctx, e),
                   lambda c: "add_page" if isinstance(c.func, ast.Attribute) and c.func.attr == "add_page" else None)
     atoms = ["selected", "doc", "testcases", "redirect", "model_ok"]
